@@ -87,8 +87,15 @@ func (as *Registry) getOrCreatePath(segments []string) (*Account, error) {
 			return nil, fmt.Errorf("account  %s has an invalid segment %q", segments, s)
 		}
 	}
+	// the names and segment lists of all ancestors are prefixes of those of the
+	// account itself: share them instead of building each of them from scratch,
+	// which is quadratic in the number of segments.
+	full := strings.Join(segments, ":")
+	own := strings.Split(full, ":")
 	current := as.accounts
+	end := -1
 	for i, segment := range segments {
+		end += len(segment) + 1
 		if ch, ok := current.Get(segment); ok {
 			current = ch
 			continue
@@ -97,11 +104,11 @@ func (as *Registry) getOrCreatePath(segments []string) (*Account, error) {
 		if current, err = current.Create(segment); err != nil {
 			return nil, err
 		}
-		name := strings.Join(segments[:i+1], ":")
+		name := full[:end]
 		current.Value = &Account{
 			accountType: accountType,
 			name:        name,
-			segments:    strings.Split(name, ":"),
+			segments:    own[: i+1 : i+1],
 		}
 		as.index[name] = current.Value
 	}
